@@ -4,6 +4,7 @@ import (
 	"strings"
 
 	"connectrpc.com/connect"
+	"google.golang.org/genproto/googleapis/api/annotations"
 	"google.golang.org/protobuf/reflect/protoreflect"
 )
 
@@ -346,4 +347,60 @@ func hParamEnum() {
 	verifObsStr("url-text", text)
 	back := &fakeMsg{desc: msg.desc}
 	verifAssert(setParameter(back, fields, text) == nil && int32(back.fnum[0]) == want, "C07: an enum value written into a URL reads back as the same number")
+}
+
+// hC07Repeated: a repeated field carried in the query string. RPC client -> REST backend: every element appears
+// as its own "tags=..." pair, in order (httpEncodePathValues); REST client -> RPC backend: every pair is
+// appended, in order (setParameter); so a list converted to a URL and back is unchanged.
+func hC07Repeated() {
+	tags := &fakeField{name: "tags", kind: protoreflect.StringKind, repeated: true}
+	desc := newFakeMsgDesc("p.R", &fakeField{name: "name", kind: protoreflect.StringKind}, tags)
+	svc := newFakeService(pipeSvc)
+	svc.addMethodIn(pipeMethod, fkUnary, 0, false, desc)
+	fc := &fakeConfig{protocols: []Protocol{ProtocolREST}, codecs: []string{CodecJSON}, maxMsg: 4096, fieldsMode: true}
+	rules := []*annotations.HttpRule{{Selector: pipeSvc + "." + pipeMethod, Pattern: &annotations.HttpRule_Get{Get: "/v1/{name}"}}}
+	tr, err := newFakeTranscoder(svc, &pipeBackend{}, fc, rules, nil)
+	verifAssert(err == nil, "rule with a repeated query field accepted")
+	if err != nil {
+		return
+	}
+	target, _, _ := tr.restRoutes.match("/v1/x", "GET")
+	verifAssert(target != nil, "route reachable")
+	if target == nil {
+		return
+	}
+	n := verifChoose("elements", 4)
+	msg := &fakeMsg{desc: desc}
+	msg.fvals[0], msg.fset[0] = "x", true
+	var want []string
+	for i := 0; i < n; i++ {
+		v := string(nondetBytes("tag", 1))
+		want = append(want, v)
+	}
+	msg.flist[1], msg.fset[1] = want, n > 0
+	path, query, eerr := httpEncodePathValues(msg, target)
+	verifObsStr("path", path)
+	verifObsInt("query-values", int64(len(query["tags"])))
+	verifReach("list-to-url")
+	verifAssert(eerr == nil && path == "/v1/x", "C07: a message with a repeated field converts to a URL")
+	if eerr != nil {
+		return
+	}
+	got := query["tags"]
+	same := len(got) == n
+	for i := 0; same && i < n; i++ {
+		same = got[i] == want[i]
+	}
+	verifAssert(same, "C01: no element of a repeated field is lost or reordered on the way to a REST backend")
+	verifAssert(same, "C07: every element of a repeated field appears in the query string, in order")
+	// and back in
+	back := &fakeMsg{desc: desc}
+	for _, v := range got {
+		verifAssert(setParameter(back, []protoreflect.FieldDescriptor{tags}, v) == nil, "C07: a repeated query parameter is accepted")
+	}
+	sameBack := len(back.flist[1]) == n
+	for i := 0; sameBack && i < n; i++ {
+		sameBack = back.flist[1][i] == want[i]
+	}
+	verifAssert(sameBack, "C07: a repeated field converted to a URL and back is unchanged")
 }
